@@ -381,6 +381,54 @@ def lblLe : Body G → Nat → Prop
   | .ifthen c t, n => lblLe c n ∧ lblLe t n
   | .neg a, n => lblLe a n
 
+theorem lblLe_mono (b : Body G) (n m : Nat) (h : lblLe b n) (hnm : n ≤ m) : lblLe b m := by
+  induction b with
+  | tt => trivial
+  | ff => trivial
+  | cut => trivial
+  | pred _ => trivial
+  | cutif l => exact Nat.le_trans h hnm
+  | conj a b iha ihb => exact ⟨iha h.1, ihb h.2⟩
+  | disj a b iha ihb => exact ⟨iha h.1, ihb h.2⟩
+  | ifthen c t ihc iht => exact ⟨ihc h.1, iht h.2⟩
+  | neg a iha => exact iha h
+
+/-- well-formed bodies: conditions of `->` and operands of `\\+` are plain; a `cutif` marker occurs
+only as the left operand of a conjunction -/
+def wfb : Body G → Prop
+  | .tt => True
+  | .ff => True
+  | .cut => True
+  | .pred _ => True
+  | .cutif _ => False
+  | .conj (.cutif _) b => wfb b
+  | .conj a b => wfb a ∧ wfb b
+  | .disj a b => wfb a ∧ wfb b
+  | .ifthen c t => plain c ∧ wfb t
+  | .neg a => plain a
+
+theorem wfb_of_plain (b : Body G) (h : plain b) : wfb b := by
+  induction b with
+  | tt => trivial
+  | ff => trivial
+  | cut => trivial
+  | pred _ => trivial
+  | cutif l => exact absurd h (by simp [plain])
+  | conj a b iha ihb =>
+    cases a with
+    | cutif l => exact absurd h.1 (by simp [plain])
+    | tt => exact ⟨trivial, ihb h.2⟩
+    | ff => exact ⟨trivial, ihb h.2⟩
+    | cut => exact ⟨trivial, ihb h.2⟩
+    | pred g => exact ⟨trivial, ihb h.2⟩
+    | conj x y => exact ⟨iha h.1, ihb h.2⟩
+    | disj x y => exact ⟨iha h.1, ihb h.2⟩
+    | ifthen x y => exact ⟨iha h.1, ihb h.2⟩
+    | neg x => exact ⟨iha h.1, ihb h.2⟩
+  | disj a b iha ihb => exact ⟨iha h.1, ihb h.2⟩
+  | ifthen c t ihc iht => exact ⟨h.1, iht h.2⟩
+  | neg a iha => exact h
+
 theorem pure_of_plain (env : G → Beh S) (henv : ∀ g, pureB (env g)) (b : Body G)
     (hp : plain b) : pureB (semb env b) := by
   fun_induction semb env b with
@@ -473,3 +521,5 @@ theorem semc_append (env : G → Beh S) (x y : List (Stmt G)) :
 #print axioms noexit_neg
 #print axioms noexit_block
 #print axioms noexit_block_of
+#print axioms lblLe_mono
+#print axioms wfb_of_plain
